@@ -190,5 +190,13 @@ H_MINMAX(u64, uint64_t)
 H_MINMAX(i64, int64_t)
 H_MINMAX(size, size_t)
 H_MINMAX(int, int)
-H_MINMAX(float, float)
-H_MINMAX(double, double)
+/* floating point: the trace prints operands with 7 significant digits only, so the exact operands are recorded as bit
+ * patterns in replay witnesses (plain copies of the harness inputs, DESIGN 3.5) */
+uint64_t r_a_bits, r_b_bits;
+#define H_MINMAX_FP(SUF, T, U)                                                                                         \
+    void h_min_##SUF(void) { T a, b; MATH_GHOST_RESET(); union { T f; U u; } ua = {.f = a}, ub = {.f = b}; r_a_bits = ua.u; r_b_bits = ub.u; \
+                             T x = aws_min_##SUF(a, b); if (x == a) CANARY("min is a"); else CANARY("min is b"); }      \
+    void h_max_##SUF(void) { T a, b; MATH_GHOST_RESET(); union { T f; U u; } ua = {.f = a}, ub = {.f = b}; r_a_bits = ua.u; r_b_bits = ub.u; \
+                             T x = aws_max_##SUF(a, b); if (x == a) CANARY("max is a"); else CANARY("max is b"); }
+H_MINMAX_FP(float, float, uint32_t)
+H_MINMAX_FP(double, double, uint64_t)
